@@ -1,5 +1,6 @@
 import LeptosModel.Proofs.RViewMain
 import LeptosModel.Proofs.RViewShow
+import LeptosModel.Proofs.RViewTop
 /-!
 # C04 — a mounted reactive view always settles to the render of current state
 
@@ -19,19 +20,28 @@ def C04_settles_full : Prop :=
     (run p ops).disposed = false → ready (run p ops) = [] →
     (run p ops).dom = render (run p ops).env p.view
 
-/-- **dynamic leaves over signals** — unconditional: for every program whose definitions are signals
-and whose view is made of static structure (text, `()`, elements, tuples) and dynamic leaves (`move ||`
-text, reactive attribute, class and style), all reading signals (through arbitrary expressions with
-`ite`, i.e. dynamic dependencies), for EVERY history of signal writes, executor polls in any order,
-`idle` runs and disposal, at every idle point the serialised DOM of the mount root equals the
-from-scratch render of the view for the current signal values. -/
+/-- **nested dynamic parts over signals** — unconditional: for every program whose definitions are
+signals and whose view is built from static structure (text, `()`, elements, tuples), dynamic leaves
+(`move ||` text, reactive attribute, class and style) and `move || Either` — nested ARBITRARILY (an
+`either` inside the branches of an `either`, dynamic leaves and elements with reactive attributes inside
+branches, …) — all reading signals (through arbitrary expressions with `ite`, i.e. dynamic
+dependencies), for EVERY history of signal writes, executor polls in ANY order (including polls of the
+tasks of dropped effects and of effects that are still alive inside a dropped branch), `idle` runs and
+disposal: at every idle point the serialised DOM of the mount root equals the from-scratch render of
+the view for the current signal values. -/
 theorem C04_settles (p : Program) (ops : List Op) (hw : p.wf = true) (hs : allSigs p.defs = true)
-    (hl : p.view.leaves = true) (hd : (run p ops).disposed = false) (hidle : ready (run p ops) = []) :
+    (hc : p.view.core = true) (hd : (run p ops).disposed = false) (hidle : ready (run p ops) = []) :
     (run p ops).dom = render (run p ops).env p.view := by
-  rcases Inv1.run hw hs hl ops with h | h
+  rcases InvD.run hw hs hc ops with h | h
   · rw [h.1] at hd; cases hd
   · simp only [Program.wf, Bool.and_eq_true] at hw
     exact h.2.settled hw.2 hidle
+
+/-- the special case of views without `either` (kept: `C04_untouched_nodes` is proved for this class) -/
+theorem C04_settles_leaves (p : Program) (ops : List Op) (hw : p.wf = true) (hs : allSigs p.defs = true)
+    (hl : p.view.leaves = true) (hd : (run p ops).disposed = false) (hidle : ready (run p ops) = []) :
+    (run p ops).dom = render (run p ops).env p.view :=
+  C04_settles p ops hw hs (View.leaves_core _ hl) hd hidle
 
 /-- after the mount handle is dropped the root stays empty, whatever happens afterwards
 (every program, every view of the grammar) -/
@@ -146,6 +156,25 @@ example :
     (run eitherProg [.idle, .set 0 2, .idle]).nodes = [(⟨0, 3⟩, [2]), (⟨2, 0⟩, [2, 4])] ∧
     (run eitherProg [.idle, .set 0 2, .idle]).dom = (run eitherProg [.idle]).dom := by decide +kernel
 
+/-- non-vacuity of `C04_settles` with nesting: an `either` inside an `either`, an element with a
+reactive class inside a branch; branches switch, a dropped branch's effects are polled later -/
+def nestProg : Program :=
+  { defs := [.sig 1, .sig 0],
+    view := .elem "div" [.cls "hot" (.rd true 1)]
+      (.either (.rd true 0)
+        (.either (.rd true 1) (.dynText (.rd true 0)) (.elem "b" [.dyn "title" (.rd true 1)] (.dynText (.rd true 1))))
+        (.seq (.dynText (.rd true 0)) (.text "-"))) }
+
+def nestOps : List Op := [.idle, .set 0 0, .poll 1, .set 1 1, .poll 0, .poll 0, .set 0 2, .poll 2, .idle]
+
+example : nestProg.wf = true ∧ allSigs nestProg.defs = true ∧ nestProg.view.core = true ∧
+    nestProg.view.leaves = false ∧
+    (run nestProg nestOps).disposed = false ∧ ready (run nestProg nestOps) = [] ∧
+    (run nestProg nestOps).zombies.length = 0 ∧ (run nestProg (nestOps.take 8)).zombies.length ≠ 0 ∧
+    (run nestProg nestOps).dom =
+      [.open "div" [.cls "hot" true], .text (.int 2), .close] ∧
+    (run nestProg nestOps).dom ≠ (run nestProg []).dom := by decide +kernel
+
 /-! non-vacuity: a program with a reactive attribute, class, style and two dynamic texts with a
 dynamic dependency; a history with partial polling; the hypotheses hold, the DOM changes -/
 
@@ -156,7 +185,7 @@ def exProg : Program :=
 
 def exOps : List Op := [.set 0 5, .poll 3, .set 1 0, .poll 1, .idle]
 
-example : exProg.wf = true ∧ allSigs exProg.defs = true ∧ exProg.view.leaves = true ∧
+example : exProg.wf = true ∧ allSigs exProg.defs = true ∧ exProg.view.leaves = true ∧ exProg.view.core = true ∧
     (run exProg exOps).disposed = false ∧ ready (run exProg exOps) = [] ∧
     ready (run exProg (exOps.take 4)) ≠ [] ∧
     (run exProg exOps).dom =
